@@ -39,9 +39,12 @@ static struct {
 
 static void event_cb(void *cookie);
 
+static _Atomic long failed_regs;
+
 static int slot_register(struct loopthr *lt)
 {
 	int i, ret;
+	uint64_t f0;
 	for (i = 0; i < MAXEV; i++) {
 		int exp = 0;
 		if (atomic_compare_exchange_strong(&ev[i].state, &exp, 2))
@@ -59,9 +62,14 @@ static int slot_register(struct loopthr *lt)
 	ev[i].entries = 0;
 	ev[i].last_post_seq = 0;
 	ev[i].last_entry_seq = 0;
+	f0 = vt_fault_fired();
 	ret = iv_event_register(ev[i].e);
 	if (ret) {
-		mon_viol("C07", "event-register-failed", g_method, "iv_event_register failed (%d) without an injected fault", ret);
+		/* a registration that reports failure must leave the loop exactly as it was (C07); without an injected fault it must not fail */
+		if (vt_fault_fired() == f0)
+			mon_viol("C07", "event-register-failed", g_method, "iv_event_register failed (%d) without an injected fault", ret);
+		else
+			atomic_fetch_add(&failed_regs, 1);
 		free(ev[i].e);
 		ev[i].e = NULL;
 		atomic_store(&ev[i].state, 0);
@@ -377,7 +385,7 @@ int main(int argc, char **argv)
 		   g_method, (unsigned long long)S.cases, (unsigned long long)S.posts, (unsigned long long)S.entries,
 		   (unsigned long long)S.remote, (unsigned long long)S.self, (unsigned long long)S.overlaps_cases,
 		   (unsigned long long)S.obligations, (unsigned long long)S.discharged, (unsigned long long)S.unreg_pending,
-		   (unsigned long long)S.regs, (unsigned long long)S.zero_cross, (unsigned long long)noise_writes, (unsigned long long)noise_entries, (unsigned long long)S.quiescences,
+		   (unsigned long long)S.regs, (unsigned long long)S.zero_cross, (unsigned long long)noise_writes, (unsigned long long)noise_entries, (long)failed_regs, (unsigned long long)S.quiescences,
 		   (unsigned long long)vt_stats.quiescences, (unsigned long long)vt_stats.time_advances,
 		   (unsigned long long)vt_stats.perturb_yield, (unsigned long long)vt_stats.perturb_sleep,
 		   (unsigned long long)vt_stats.threads_created, (unsigned long long)vt_stats.injected, mon_viol_total);
